@@ -580,9 +580,11 @@ func (v SolutionVehicle) Unplan() (bool, error) {
 	planUnits := common.Map(solutionStops, func(solutionStop SolutionStop) *solutionPlanStopsUnitImpl {
 		return solutionStop.planStopsUnit()
 	})
+	// the collections list root plan units only: a stop of a member of a units-unit
+	// moves the unit it ultimately belongs to
 	for _, planUnit := range planUnits {
-		solution.unPlannedPlanUnits.add(planUnit)
-		solution.plannedPlanUnits.remove(planUnit)
+		solution.unPlannedPlanUnits.add(solution.unwrapRootPlanUnit(planUnit))
+		solution.plannedPlanUnits.remove(solution.unwrapRootPlanUnit(planUnit))
 	}
 	stopPositions := common.Map(solutionStops, func(solutionStop SolutionStop) StopPosition {
 		return newStopPosition(
@@ -610,8 +612,8 @@ func (v SolutionVehicle) Unplan() (bool, error) {
 			)
 		}
 		for _, planUnit := range planUnits {
-			solution.unPlannedPlanUnits.remove(planUnit)
-			solution.plannedPlanUnits.add(planUnit)
+			solution.unPlannedPlanUnits.remove(solution.unwrapRootPlanUnit(planUnit))
+			solution.plannedPlanUnits.add(solution.unwrapRootPlanUnit(planUnit))
 		}
 		constraint, _, err := solution.isFeasible(index, true)
 		if err != nil {
@@ -622,6 +624,8 @@ func (v SolutionVehicle) Unplan() (bool, error) {
 				"undoing failed unplan vehicle failed: %v", constraint,
 			)
 		}
+		// the stops are back on the vehicle: nothing was un-planned
+		return false, nil
 	}
 
 	return true, nil
